@@ -58,6 +58,7 @@ void kv_hmeet(struct aln_mem* m, int old_cor[]);
 void kv_hsplit(struct aln_mem* m, int old_cor[], int meet, int transition, int serial);
 
 void kv_dm(float** dm, int rows, int cols, int pair);
+void kv_anchors(const int* anchors, int n, int numseq);
 void kv_km_node(uint32_t id, int num_samples, int leaf);
 void kv_km_split(const int* samples, int num_samples, int seed_pick, const int* sl, int nl, const int* sr, int nr, float score);
 void kv_km_reduce(uint32_t id, int i, int step, const uint32_t dg[4]);
